@@ -11,7 +11,7 @@ for id in "${ids[@]}"; do
   out="$HERE/target/seeded-out/$id"; rm -rf "$out"; mkdir -p "$out"
   git -C /repo apply "$HERE/seeded/$id/patch.diff" || { echo "$id: patch does not apply"; continue; }
   VERIF_OUT="$out" ./check C13 "${TIER:-quick}" >"$out/log.txt" 2>&1; rc=$?
-  git -C /repo checkout -- . 
+  git -C /repo apply -R "$HERE/seeded/$id/patch.diff" 2>/dev/null; git -C /repo checkout -- . 
   groups=$(grep -o '"violation": [0-9]*' "$out/log.txt" | head -1)
   echo "$id: exit=$rc $(grep -c '^VIOLATION' "$out/log.txt") replay(s); $groups; $(grep -E '^  group' "$out/log.txt" | head -2 | tr '\n' ' ')"
 done
